@@ -31,7 +31,10 @@ func (t *Dense) T(axes ...int) (err error) {
 		}
 
 		// equal shapes are not enough (think of (2,2,2)): the new axes must also undo the previous ones
-		if isReversed && len(t.transposeWith) == len(axes) {
+		if isReversed && len(t.transposeWith) != len(axes) {
+			isReversed = false // the pending axes are unknown: materialise and transpose, which is always right
+		}
+		if isReversed {
 			for i, a := range axes {
 				if a < 0 || a >= len(t.transposeWith) || t.transposeWith[a] != i {
 					isReversed = false
